@@ -13,6 +13,7 @@ var ErrInjected = errors.New("verif: injected fault")
 type FaultWriter struct {
 	FailAt  int
 	Partial bool // accept half of the failing write's bytes
+	Full    bool // accept all of the failing write's bytes and report an error all the same (a quota writer)
 	Calls   int
 	Got     []byte // bytes accepted
 	After   int    // Write calls made after the failed one
@@ -31,6 +32,10 @@ func (w *FaultWriter) Write(p []byte) (int, error) {
 		if w.Partial {
 			n = len(p) / 2
 			w.Got = append(w.Got, p[:n]...)
+		}
+		if w.Full {
+			n = len(p)
+			w.Got = append(w.Got, p...)
 		}
 		return n, ErrInjected
 	}
